@@ -52,6 +52,23 @@ pub fn impl_imported_names(m: &Model, file: usize, seen: &mut BTreeSet<usize>) -
     out
 }
 
+/// Names the implementation considers imported by any conftest on the path of `file`.
+pub fn impl_imported_names_on_path(m: &Model, file: usize) -> BTreeSet<String> {
+    let mut out = BTreeSet::new();
+    let loc = &m.ws.files[file].loc;
+    if loc.is_plugin() || loc.is_third_party() {
+        return out;
+    }
+    let mut d = Some(loc.dir);
+    while let Some(dd) = d {
+        if let Some(c) = m.ws.find(&FileLoc { dir: dd, kind: FileKind::Conftest }) {
+            out.extend(impl_imported_names(m, c, &mut BTreeSet::new()));
+        }
+        d = dir_parent(dd);
+    }
+    out
+}
+
 /// The recorded wrong behaviour: same as the model, except that in the "conftest imports the
 /// name" step the first-registered definition of that name anywhere is returned, and an explicit
 /// import counts as providing the name whenever it is a fixture name anywhere.
@@ -217,7 +234,7 @@ pub fn show_res(m: &Model, r: &Res) -> String {
 }
 
 pub fn cfg() -> GenCfg {
-    GenCfg { names: 4, ..GenCfg::default() }
+    GenCfg { names: 4, allow_dups_in_file: true, ..GenCfg::default() }
 }
 
 pub fn run(ctx: &Ctx) {
